@@ -831,7 +831,10 @@ class WireWorld(World):
             if rk == "oversize":
                 self._check_oversize_refusal(ctx, i, "direct", x, None)
             elif not hostile:
-                ctx.violate("valid-rejected", type(x).__name__, "case %d direct: a sender-buildable message was rejected: %r; bytes %s"
+                key = type(x).__name__
+                if spec is not None and spec.get("via", "sut") == "sut" and spec.get("flags", 0) & MANAGED:
+                    key += ":caller-set-managed-flag"
+                ctx.violate("valid-rejected", key, "case %d direct: a sender-buildable message was rejected: %r; bytes %s"
                             % (i, x, raw_hex))
             else:
                 ctx.probe("mutated_rejected" if mutated else "hostile_rejected")
